@@ -366,6 +366,18 @@ class SetAlg:
         if h == "ite":
             ci = self.cond(c[1])
             return f_or(f_and(ci, self.cond(c[2])), f_and(f_not(ci), self.cond(c[3])))
+        if h == "iter-elem" and c[1][0] == "var":
+            return self.member(c[1], c[2])
+        if h in ("any", "all") and c[1][0] == "comp" and len(c[1][3]) == 1:
+            pat, it, conds = c[1][3][0]
+            lit = self.strip(it)
+            if lit[0] in ("setlit", "listlit", "tuplelit") and pat[0] == "var" and len(lit[1]) <= 4:
+                parts = []
+                for x in lit[1]:
+                    body = f_and(*[self.cond(subst(k, {pat: x})) for k in conds], self.cond(subst(c[1][2], {pat: x}))) if h == "any" else f_or(
+                        f_not(f_and(*[self.cond(subst(k, {pat: x})) for k in conds])), self.cond(subst(c[1][2], {pat: x})))
+                    parts.append(body)
+                return f_or(*parts) if h == "any" else f_and(*parts)
         return ("atom", self.canon(c))
 
     # -- canonical forms -----------------------------------------------------------------------
